@@ -461,6 +461,42 @@ def h_vec(nconf_a: int, pre_dest: bool, cache_a: int, cache_a1: int, c_x: int, c
     return scenario(True, pick(nconf_a - 1, 2) + 1, pre_dest, True, pick(cache_a, 3), c_x, c_rc, pick(cache_a1, 3), xs, [True] * NRUNS, SEQS[pick(sa, len(SEQS))], SEQS[pick(sa1, 4)], SEQS[pick(sb, 2)], neg_rc, False)
 
 
+# ------------------------------------------------------------------------------------------------------ the real hash separates different inputs
+# field menus (built at import: dicts made under CrossHair's tracer are proxy maps that msgpack refuses)
+HF = {"jid": ["a", "b"], "commands": [[("tool a", None)], [("tool a", "n")], [("tool b", None)], [("tool a", None), ("post", None)]],
+      "files": [None, {"x": b"0"}, {"x": b"1"}, {"x": "0"}, {"y": b"0"}], "return_files": [None, ("r",), ("r", "s")],
+      "envars": [None, {"OMP": "1"}, {"OMP": "2"}, {"OMP": "1", "LIC": "k"}], "timeout": [None, 10.0, 20.0]}
+HFN = list(HF)
+
+
+BASES = [(0, 0, 0, 0, 0, 0), (1, 1, 1, 1, 1, 1), (0, 2, 2, 2, 2, 2), (1, 3, 3, 0, 3, 0), (0, 1, 4, 1, 0, 2), (1, 0, 2, 2, 1, 1)]      # every menu value of every field occurs
+
+
+def h_hash_fields(field: int, i: int, j: int, b: int) -> bool:
+    """
+    the real JobInput.hash (msgpack + sha3): two inputs that differ in exactly one field (any field, any two menu values; the other fields at
+    common values taken from 6 rows that cover every menu value) have different hashes, equal inputs have equal hashes: 'same hash' means 'same input'
+    pre: 0 <= field < 6 and 0 <= i <= 4 and 0 <= j <= 4 and 0 <= b < len(BASES)
+    pre: SPLIT < 0 or field == SPLIT
+    post: _
+    """
+    f = pick(field, 6)
+    base = BASES[pick(b, len(BASES))]
+    n = len(HF[HFN[f]])
+    i, j = pick(i, 5), pick(j, 5)
+    if i >= n or j >= n:
+        return True
+    kw1 = {name: HF[name][base[k]] for k, name in enumerate(HFN)}
+    kw2 = dict(kw1)
+    kw1[HFN[f]] = HF[HFN[f]][i]
+    kw2[HFN[f]] = HF[HFN[f]][j]
+    from crosshair.tracers import NoTracing
+    with NoTracing():                         # msgpack / sha3 are C code and the inputs are concrete here: run them outside the tracer
+        h1, h2 = JobInput(**kw1).hash, JobInput(**kw2).hash
+        same = h1 == h2
+    return same == (i == j)
+
+
 def validate_models():
     """the hash model must agree with the real sha3/msgpack hash on equality: same (jid, commands, x) <=> same hash, for the job shapes used here;
     and a dumped/loaded JobOutput keeps hash, exit code and files"""
@@ -487,7 +523,7 @@ def validate_models():
     return k
 
 
-ENCODED = ["molli.pipeline.job.jobmap", "molli.pipeline.job.Job._prepare", "molli.pipeline.job.Job._prepare_iter", "molli.pipeline.job.Job._process", "molli.pipeline.job.Job._process_iter",
+ENCODED = ["molli.pipeline.job.jobmap", "molli.pipeline.job.JobInput", "molli.pipeline.job.Job._prepare", "molli.pipeline.job.Job._prepare_iter", "molli.pipeline.job.Job._process", "molli.pipeline.job.Job._process_iter",
            "molli.pipeline.job.Job.vectorize", "molli.storage.collection.Collection.keys", "molli.storage.collection.Collection.__getitem__", "molli.storage.collection.Collection.__setitem__",
            "molli.storage.backends.CollectionBackendBase.reading", "molli.storage.backends.CollectionBackendBase.writing"]
 
@@ -501,6 +537,7 @@ def run(rep, tier):
                   "runs": f"{2 if q else 3} consecutive jobmap calls, job argument of each run a symbolic int (equal or different between runs and to the cached output's)",
                   "cache": "sub-job a / a.0 (and a.1): none, present (symbolic argument = hash, symbolic exit code in [-1,1], with or without the return file), corrupt file",
                   "outcomes": "per sub-job a sequence over attempts from {ok, fail with symbolic non-zero code leaving a partial file, omit the return file, runner killed before writing}: " + repr([[OUTCOMES[o] for o in s] for s in SEQS]),
+                  "hash": "the real JobInput.hash on pairs of inputs differing in exactly one of the six fields (menus of 2-5 values per field, other fields at every menu value) [selector-bound]",
                   "jobs": "single and vectorised (1-2 conformers), strict and (where all hashes agree) lenient hashing; post-processing needs the return file"}
     rep.outside = ["real _molli_run processes, threads, the real cache directory in the symbolic runs (world model; every counterexample is replayed with real processes, files, msgpack and sha3)",
                    "jobmap_sge, worker, Job.__call__", "whether an item whose run left out a return file (command exit 0) is executed again by a later run (not fixed by the property; history is cut there)",
@@ -514,4 +551,5 @@ def run(rep, tier):
     specs = [{"fn": "h_single", "timeout": to, "split": 4 * s + t, "env": env} for s in range(len(SEQS)) for t in ([(s + 1) % 2] if q else range(4))]
     specs += [{"fn": "h_vec", "timeout": to, "split": 4 * s + t, "env": dict(env, XH_C18_CA=str(ca)), "tag": f"/cache{ca}"} for s in range(len(SEQS)) for t in ([(s + 1) % 2] if q else range(4)) for ca in range(2 if q else 3)]
     specs.sort(key=lambda sp: sp["fn"] != "h_vec")            # long ones first
+    specs += [{"fn": "h_hash_fields", "timeout": 600, "split": f} for f in range(6)]
     xh.run_obligations(rep, "harness.C18", specs)
